@@ -22,6 +22,8 @@ def runExport (j : Json) : R (Json × Json) := do
   let m ← getOptInt j "maxlevel"
   let legacy ← (getBool j "legacy" <|> pure false)
   let iters ← (getNat j "iterations" <|> pure 1)
+  -- a first iteration abandoned after `partial` node lines (the generator is lazy: only those ids exist)
+  let partialN ← (getNat j "partial" <|> pure 0)
   let custom ← (getBool j "custom" <|> pure false)
   let opts ← (do
     let v ← getField j "options"
@@ -55,7 +57,9 @@ def runExport (j : Json) : R (Json × Json) := do
       edgefunc := if custom then (fun p c => "--" ++ toString p.label ++ "." ++ toString c.label ++ "-->")
                   else (fun _ _ => Generated.mermaidEdge),
       filter := F, stop := S, maxlevel := m }
-    let mir := runIters iters (fun st => merIter legacy cfg s st) ([] : IdMap Nat) []
+    let nodes0 := Iter.preIter cfg.filter cfg.stop cfg.maxlevel s
+    let st0 := (merNodes cfg (spaces cfg.indent) (nodes0.take partialN) ([] : IdMap Nat)).2
+    let mir := runIters iters (fun st => merIter legacy cfg s st) st0 []
     let nm : Tree Nat → String := if custom then (fun n => "n" ++ toString n.label) else specIdM
     let sp := (List.range iters).flatMap (fun _ => Spec.merLinesS cfg nm s)
     pure (strsJ mir, strsJ sp)
@@ -69,7 +73,9 @@ def runExport (j : Json) : R (Json × Json) := do
       edgeattr := if custom then cEdgeAttr else (fun _ _ => none),
       edgetype := if custom then cEdgeType else (fun _ _ => Generated.dotEdgeType),
       filter := F, stop := S, maxlevel := m }
-    let mir := runIters iters (fun st => dotIter legacy cfg s st) ([] : IdMap Nat) []
+    let nodes0 := Iter.preIter cfg.filter cfg.stop cfg.maxlevel s
+    let st0 := (dotNodes cfg (spaces cfg.indent) (nodes0.take partialN) ([] : IdMap Nat)).2
+    let mir := runIters iters (fun st => dotIter legacy cfg s st) st0 []
     let nm : Tree Nat → String := if custom then cName else if uniq then specId else nameOf
     let sp := (List.range iters).flatMap (fun _ => Spec.dotLinesS cfg nm s)
     pure (strsJ mir, strsJ sp)
